@@ -33,7 +33,7 @@ REQUIRED_CLASSES = ["Polygon:valid", "Polygon:crossing", "Polygon:duplicate", "P
                     "ConvexPolygon:valid", "ConvexPolygon:interior-point", "ConvexSpheropolygon:valid", "ConvexPolyhedron:valid",
                     "ConvexPolyhedron:interior-point", "ConvexSpheropolyhedron:negative-radius", "Circle:nonpositive",
                     "Ellipsoid:nonpositive", "Polyhedron:valid", "malformed:one-dimensional", "malformed:three-dimensional", "malformed:Nx4",
-                    "malformed:empty-list", "Polygon:valid:first-three-collinear-no-normal", "Polygon:crossing:star", "convex2d:listing:star-step"]
+                    "malformed:empty-list", "Polygon:valid:first-three-collinear-no-normal", "Polygon:crossing:star", "convex2d:listing:star-step", "Polygon:duplicate:negative-zero"]
 
 
 def ncases(tier):
@@ -309,6 +309,18 @@ def _run_case(i, rng, rec, tier, state):
                     expect_invalid(rec, "Polygon:crossing", lambda: cs.Polygon(container(rng, W), normal=narg), dict(info, vertices=W))
                     rec.nontriv("Polygon:crossing", W)
                     break
+        elif sib == 1 and rng.random() < 0.4 and not c["tilted"]:
+            # the same point twice, the two copies differing only in the sign of a zero coordinate (-0.0 == 0.0)
+            j = int(rng.integers(n))
+            W = V.copy()
+            W[:, 0] -= W[j, 0]
+            dup = W[j].copy()
+            dup[0] = -0.0
+            W[j, 0] = 0.0
+            W = np.insert(W, int(rng.integers(n + 1)), dup, axis=0)
+            rec.cls("Polygon:duplicate:negative-zero")
+            expect_invalid(rec, "Polygon:duplicate", lambda: cs.Polygon(container(rng, W), normal=narg), dict(info, vertices=W, negative_zero=True))
+            rec.nontriv("Polygon:duplicate", W)
         elif sib == 1:
             W = np.vstack((V, V[int(rng.integers(n))]))
             expect_invalid(rec, "Polygon:duplicate", lambda: cs.Polygon(container(rng, W), normal=narg), dict(info, vertices=W))
